@@ -1,10 +1,11 @@
 import PauLieVerif.Model.CmdPS
 import PauLieVerif.Model.CmdGraph
 import PauLieVerif.Model.CmdClassify
+import PauLieVerif.Model.CmdCollection
 
 open PauLie
 
-def handlers : List (String → Option String) := [CmdPS.handle, CmdGraph.handle, CmdClassify.handle]
+def handlers : List (String → Option String) := [CmdPS.handle, CmdGraph.handle, CmdClassify.handle, CmdCollection.handle]
 
 def respond (line : String) : String :=
   match handlers.findSome? (fun h => h line) with
